@@ -58,6 +58,29 @@ def setProp (own : String → List Name) : DTree → Name → PVal → DTree
       | "array", c :: rest => node k p (setProp own c key v :: rest) ms
       | _, _ => node k p cs ms
 
+/-- `setProperty(key, value)` on the member datatype object found by descending along `path` (child
+indices: `ArrayOf.members`, `TupleOf.members[i]`, `StructOf.members` in sorted key order).  A
+`LimitsType` (kind `"limits"`, datatypes.py:1306-1319) is a `TupleOf(member, member)` built from ONE
+member object used twice: it has a single child, and both indices lead to it.  A path that leaves the
+tree is an `IndexError` in Python (the operation fails as a whole and is not applied in the model). -/
+def setPropAt (own : String → List Name) : List Nat → DTree → Name → PVal → DTree
+  | [], t, key, v => t.setProp own key v
+  | i :: rest, node k p cs ms, key, v =>
+    match cs[if k == "limits" then 0 else i]? with
+    | some c => node k p (cs.set (if k == "limits" then 0 else i) (setPropAt own rest c key v)) ms
+    | none => node k p cs ms
+
+mutual
+/-- what `export_datatype()` shows of a datatype object: a `LimitsType` is exported as a tuple with its
+one member twice -/
+def exported : DTree → DTree
+  | node k p cs ms =>
+    if k == "limits" then node "tuple" p (exportedList cs ++ exportedList cs) ms else node k p (exportedList cs) ms
+def exportedList : List DTree → List DTree
+  | [] => []
+  | c :: cs => exported c :: exportedList cs
+end
+
 mutual
 /-- `set_main_unit` (datatypes.py:209, 872, 949): `$` in every unit below is replaced -/
 def mainUnit (repl : PVal → PVal) : DTree → DTree
@@ -77,9 +100,20 @@ structure AccH where
   mergedDt : Option Ref      -- mergedProperties['datatype'|'argument']
 deriving Repr, Inhabited
 
+/-- a `Property` object (properties.py:44-92): what the module-level part of a description is computed from.
+`value` is the value given with the declaration or by a bare class attribute (`UNSET` = `none`), `dflt` is
+`default`, `exported` is `export`: `false`, `true` or `"always"` (canonical JSON text, like all values) -/
+structure PropV where
+  value : Option PVal
+  dflt : PVal
+  extname : String
+  exported : PVal
+deriving DecidableEq, Repr, Inhabited
+
 inductive Obj where
   | acc (a : AccH)
   | dt (t : DTree)
+  | prop (p : PropV)
 deriving Repr, Inhabited
 
 abbrev Heap := List Obj
@@ -88,6 +122,7 @@ namespace Heap
 def alloc (h : Heap) (o : Obj) : Heap × Ref := (h ++ [o], h.length)
 def accAt (h : Heap) (r : Ref) : Option AccH := match h[r]? with | some (.acc a) => some a | _ => none
 def dtAt (h : Heap) (r : Ref) : Option DTree := match h[r]? with | some (.dt t) => some t | _ => none
+def propAt (h : Heap) (r : Ref) : Option PropV := match h[r]? with | some (.prop p) => some p | _ => none
 end Heap
 
 end Frappy.Klass
